@@ -121,7 +121,7 @@ def _bits(op):
     while True:
         tr = np.where(np.diff(b) != 0)[0] + 1
         par = np.bincount(tr % 2, minlength=2)
-        if par.min() >= 4 or k > 50:
+        if par.min() >= max(4, n // 8) or k > 400:
             break
         pos = 4 + int(rs.randint(0, n - 6))
         b[pos] ^= 1                       # adds transitions at pos and pos+1 (one of each parity) or removes them
